@@ -430,11 +430,17 @@ def check_body(program, rep):
                f'{pt}.sep, ResourceMap.split_char)')
         key = f'{pt}.splitext({rel})[0]' if (trim is True and isfile is True) \
             else rel
+        # dropping the file's own extension as a suffix is the same trim
+        key_alts = {key}
+        if trim is True and isfile is True:
+            key_alts.add(f'{rel}.removesuffix({pt}.splitext({path})[1])')
         if isdir is True and isfile is True:
             continue        # infeasible valuation
         for s in stores:
             cnt['store'] += 1
             k = s.target.text[len(mp) + 1:-1]
+            if k in key_alts:
+                key = k         # the same key, written the other way
             if k != key:
                 flag('body', s.node, f'the entry is stored under {k}; the '
                      f'key for this path must be {key} (path relative to the '
